@@ -218,3 +218,8 @@ def c04_checks(repo: Repo, tier: str, res: CheckResult, eng, seed: int) -> None:
             return gfile, gfunc, gline, abstract_construct(construct)
         collect_rule(repo, eng, fn, m, "model_loader", res, rekey=rekey)
     res.count("ESC.generated-model-loaders", n, 200)
+
+
+def c19_checks(repo: Repo, tier: str, res: CheckResult, seed: int) -> None:
+    """hostile identifier / key family on emitted programs (filled in with the C03 translation validation)"""
+    return
